@@ -5,6 +5,7 @@ import (
 	"encoding/json"
 	"fmt"
 	"os"
+	"path/filepath"
 	"sort"
 
 	"voicheck/edt"
@@ -19,6 +20,13 @@ import (
 //go:embed paramnames.json
 var paramNamesJSON []byte
 
+// The name-free signature of every module function known when the
+// specifications were written (load.RecordedFuncs: renamed unexported
+// functions are matched by signature, see load/rename.go).
+//
+//go:embed funcsigs.json
+var funcSigsJSON []byte
+
 var recordedParamNames map[string][]string
 
 func init() {
@@ -26,16 +34,27 @@ func init() {
 		panic("paramnames.json: " + err.Error())
 	}
 	edt.ParamNames = func(fn string) []string { return recordedParamNames[fn] }
+	if err := json.Unmarshal(funcSigsJSON, &load.RecordedFuncs); err != nil {
+		panic("funcsigs.json: " + err.Error())
+	}
 }
 
 // DumpParamNames writes the table for the current tree (all quick configurations).
 func DumpParamNames(out string) {
 	tab := map[string][]string{}
+	sigs := map[string]string{}
 	for _, id := range []string{"amd64", "purego", "f32"} {
 		p, err := load.Load(id, load.Opts{SSA: true, NoControls: true})
 		if err != nil {
 			fmt.Fprintln(os.Stderr, err)
 			os.Exit(2)
+		}
+		for _, pk := range p.Pkgs {
+			for k, v := range load.DeclaredFuncs(pk.Types) {
+				if _, ok := sigs[k]; !ok {
+					sigs[k] = v
+				}
+			}
 		}
 		for _, fn := range p.ModuleFuncs() {
 			if fn.Parent() != nil || len(fn.Params) == 0 {
@@ -74,4 +93,9 @@ func DumpParamNames(out string) {
 		fmt.Fprintf(f, " %s: %s%s\n", kb, b, sep)
 	}
 	fmt.Fprintln(f, "}")
+	b, _ := json.MarshalIndent(sigs, "", " ")
+	if err := os.WriteFile(filepath.Join(filepath.Dir(out), "funcsigs.json"), append(b, '\n'), 0o644); err != nil {
+		fmt.Fprintln(os.Stderr, err)
+		os.Exit(2)
+	}
 }
